@@ -176,7 +176,10 @@ def F17():  # C19/C20 probability vector follows insertion order
     from primaite.game.agent.scripted_agents.probabilistic_agent import ProbabilisticAgent
 
     s = ProbabilisticAgent.AgentSettingsSchema(action_probabilities={1: 0.0, 0: 1.0})
-    vec = list(s.action_probabilities.values())
+    from types import SimpleNamespace as NS
+
+    # the real property body, evaluated on a stub agent that only carries the validated settings
+    vec = list(ProbabilisticAgent.probabilities.fget(NS(config=NS(agent_settings=s))))
     report("F17", vec[1] != s.action_probabilities[1], f"vector={vec} but P(1)={s.action_probabilities[1]}")
 
 
